@@ -121,6 +121,10 @@ def run(ctx: Ctx) -> None:
         cases.append(e["witness"]); ctx.corpus_cases += 1
     for d in [{"a": [{"_z": 1, "y": 2}], "_b": 1}, {"_a": {"b": 1}, "c": {"_d": 2, "e": [[{"_f": 1, "g": "x y"}]]}}, {"k": "it's"}, {"k": ""}, {"k": "a;b"}]:
         cases.append({"kind": "dict", "d": enc(d)}); ctx.corpus_cases += 1
+    for _ in range(ctx.n(15, 300)):
+        d = gen.size_dict(rng)
+        if c01.in_dom_keys_ok(d) and _strings_ok(d):
+            cases.append({"kind": "dict", "d": enc(d)})
     for _ in range(ctx.n(900, 20000)):
         d = c01.gen_dict(rng, foam=True, underscore=rng.choice([0.0, 0.15, 0.3]))
         if c01.in_dom_keys_ok(d) and _strings_ok(d):
